@@ -1,4 +1,5 @@
 import Martian.Util
+import Martian.Generated.Grpc
 /-!
 Executable model of `h2/grpc/grpc.go` (property C11): the `adapter` (gRPC length-prefixed
 message reassembly over HTTP/2 DATA frames, decompression), the `emitter` (recompression and
@@ -192,16 +193,39 @@ def Adapter.afterDelivery (a : Adapter) (m : GMsg) (rest : Bytes) : Adapter :=
 
 abbrev Header := Bytes × Bytes
 
-def ctName : Bytes := strBytes "content-type"
-def ctGrpc : Bytes := strBytes "application/grpc"
-def geName : Bytes := strBytes "grpc-encoding"
+/-! The literals come from the source on every check (`vextract` → `Generated/Grpc.lean`): the
+three string tests of adapter.Header in source order (name of the announcing header, its value,
+name of the encoding header; their shape is pinned by `facts_grpc_header_tests`) and the
+`grpc-encoding` value table of its `switch`. -/
+def ctName : Bytes := strBytes (Generated.Grpc.headerTests.getD 0 ("", "")).2
+def ctGrpc : Bytes := strBytes (Generated.Grpc.headerTests.getD 1 ("", "")).2
+def geName : Bytes := strBytes (Generated.Grpc.headerTests.getD 2 ("", "")).2
+
+def encOfConst : String → Option Enc
+  | "Identity" => some .identity
+  | "Gzip" => some .gzip
+  | "Deflate" => some .deflate
+  | "Snappy" => some .snappy
+  | _ => none
 
 def encOfName (v : Bytes) : Option Enc :=
-  if v = strBytes "identity" then some .identity
-  else if v = strBytes "gzip" then some .gzip
-  else if v = strBytes "deflate" then some .deflate
-  else if v = strBytes "snappy" then some .snappy
+  match Generated.Grpc.encodingNames.find? (fun p => strBytes p.1 = v) with
+  | some p => encOfConst p.2
+  | none => none
+
+/-- which wire format a library call reads or writes -/
+def formatOf (c : String) : Option String :=
+  if c = "gzip.NewReader" ∨ c = "gzip.NewWriter" ∨ c = "gzip.NewWriterLevel" then some "gzip"
+  else if c = "flate.NewReader" ∨ c = "flate.NewWriter" then some "deflate"
+  else if c = "snappy.NewReader" ∨ c = "snappy.NewBufferedWriter" ∨ c = "snappy.NewWriter" then some "snappy-framed"
+  else if c = "snappy.Encode" ∨ c = "snappy.Decode" then some "snappy-block"
   else none
+
+/-- formats chosen by a list of calls, looking through the helpers `gunzip` / `deflate` -/
+def formatsOf (cs : List String) : List String :=
+  (cs.flatMap fun c => match Generated.Grpc.helperCalls.find? (·.1 = c) with
+    | some r => r.2
+    | none => [c]).filterMap formatOf
 
 /-- the `grpc-encoding` loop of adapter.Header: `none` = "unrecognized grpc-encoding"; the
 encoding chosen by earlier header fields stays assigned (as in Go). -/
